@@ -467,12 +467,14 @@ def generate_src_put(rng, tier):
         L = need if rng.random() < 0.5 else rng.randint(need, 12)
         yield "src_tagged_put %d %s" % (x, hexs(_rbuf(rng, L)))
         yield "src_tagged_len %d" % x
+        yield "src_tagged_lenq %d" % x
         if x <= 0xFFFFFFFF and rng.random() < 0.5:
             yield "src_tagged_put32 %d %s" % (x, hexs(_rbuf(rng, rng.randint(need, 10))))
     for x in rng.sample(pool, min(len(pool), 150 if tier == "quick" else len(pool))) + [rand_u64(rng) for _ in range(n // 4)]:
         for w in range(0, 11):
             L = w if (1 <= w <= 9 and rng.random() < 0.5) else rng.randint(9, 12)
             yield "src_tagged_fixed %d %d %s" % (x, w, hexs(_rbuf(rng, L)))
+            yield "src_tagged_fixedq %d %d %s" % (x, w, hexs(_rbuf(rng, L)))
 
 
 def generate_src_get(rng, tier):
@@ -490,6 +492,8 @@ def generate_src_get(rng, tier):
         yield "src_tagged_get64 %s %d" % (hexs(bs), init)
         yield "src_tagged_get32 %s %d" % (hexs(bs), init & 0xFFFFFFFF)
         yield "src_tagged_getrv %s" % hexs(bs)
+        yield "src_tagged_getq %s" % hexs(bs)
+        yield "src_tagged_getlenq %s" % hexs(bs[:1])
     for _ in range(n):
         a0 = rng.choice([rng.randint(0, 255), rng.randint(238, 255)])
         need = ref_len_first(a0)
@@ -547,6 +551,18 @@ def o_src_fixed(args, c):
     return None
 
 
+def o_src_fixedq(args, c):
+    x, w, buf = int(args[0]), int(args[1]), list(bytes.fromhex(args[2][1:]))
+    out, err = _src_out(c)
+    if err:
+        return err
+    if not _legal_fixed(x, w):
+        return None
+    if out[:w] != _fixed_bytes(x, w) or out[w:] != buf[w:]:
+        return "fixed-width macro wrote %s, expected %s then the old bytes" % (c["buf"], hexs(_fixed_bytes(x, w)))
+    return None
+
+
 def o_src_len(args, c):
     x = int(args[0])
     return None if int(c.get("ret", -1)) == len(ref_put(x)) else "length %s, the encoding of %d has %d bytes" % (c.get("ret"), x, len(ref_put(x)))
@@ -599,9 +615,10 @@ def o_src_none(args, c):
 
 
 SRC_ORACLES_PUT = {"src_tagged_put": o_src_put, "src_tagged_put32": o_src_put, "src_tagged_fixed": o_src_fixed,
-                   "src_tagged_len": o_src_len}
+                   "src_tagged_len": o_src_len, "src_tagged_lenq": o_src_len, "src_tagged_fixedq": o_src_fixedq}
 SRC_ORACLES_GET = {"src_tagged_getlen": o_src_getlen, "src_tagged_get": o_src_get, "src_tagged_get64": o_src_get64,
-                   "src_tagged_get32": o_src_get32, "src_tagged_getrv": o_src_getrv}
+                   "src_tagged_get32": o_src_get32, "src_tagged_getrv": o_src_getrv, "src_tagged_getq": o_src_getrv,
+                   "src_tagged_getlenq": o_src_getlen}
 
 
 def classify_src(case, m):
@@ -638,7 +655,8 @@ def _searches(*fs):
 
 
 PARTS = {
-    "C01": dict(coq_props=["Properties_C01_tagged", "Properties_C01_tagged_src"], files=FILES,
+    "C01": dict(coq_props=["Properties_C01_tagged", "Properties_C01_tagged_src", "Properties_C01_tagged_quick_src"],
+                files=FILES,
                 generate=_chain(generate_rt, generate_frame, generate_src_put, generate_src_get),
                 rule="tagged: every boundary/literal value +-2 and random bit-lengths through put/get/len/getlen and all "
                      "quick/32-bit forms at random alignments; fixed-width writer for widths 0..10 on the pool; "
